@@ -67,6 +67,9 @@ package json
 //@   loop#1 invariant forall k int :: {headers[k].str} 0 <= k && k < i ==> headers[k].str != ""
 //@   loop#1 invariant [skip-is-own-else-default] forall k int :: {skipableColumns[k]} 0 <= k && k < i ==> skipableColumns[k] == (skipOf(jtab(jt), k + 1) != nil ? skipOf(jtab(jt), k + 1).(bool) : defaultSkipable) @C07
 //@   call Marshal#1 before assert [key-is-the-header-text] arg0 == mkiface(type[string], box(headers[i].str)) @C07
+//@   loop#1 invariant [seen-holds-the-earlier-header-texts] seen != nil && forall k int :: {headers[k].str} 0 <= k && k < i ==> has(seen, headers[k].str)
+//@   loop#1 invariant [earlier-header-texts-distinct] forall a int, b int :: {headers[a].str, headers[b].str} 0 <= a && a < b && b < i ==> headers[a].str != headers[b].str
+//@   call WriteString#1 before assert [header-texts-are-distinct-keys] forall a int, b int :: {headers[a].str, headers[b].str} 0 <= a && a < b && b < columnCount ==> headers[a].str != headers[b].str @C07
 //@   loop#1 decreases columnCount - i
 //@   loop#2 invariant -1 <= rangeindex && rangeindex < len(jtab(jt).rows) && -1 <= lastObject && lastObject <= rangeindex && tbl(jt.Table) && !Wfailed && jstate == 1 && jobjs == old(jobjs) && len(skipableColumns) == columnCount && len(keys) == columnCount && columnCount == jtab(jt).nColumns
 //@   loop#2 invariant lastObject >= 0 ==> !jtab(jt).rows[lastObject].isSeparator
